@@ -73,8 +73,16 @@ def main(argv=None):
     if argv and argv[0] == "--replay":
         path = argv[1]
         rep = json.load(open(path))
+        if rep["sig"].endswith("/under-python-O") and not sys.flags.optimize:
+            os.execv(sys.executable, [sys.executable, "-O"] + sys.argv)  # the environment the violation was found in
         mod = importlib.import_module(rep["module"])
-        ok = mod.replay(unjson(rep["replay"]))
+        if rep["sig"].endswith("/with-debug-logging"):
+            from vmc.checks.harness import debug_logging
+
+            with debug_logging():
+                ok = mod.replay(unjson(rep["replay"]))
+        else:
+            ok = mod.replay(unjson(rep["replay"]))
         print("REPLAY", "holds" if ok else "VIOLATES", "property=%s sig=%s" % (rep["property_id"], rep["sig"]))
         return 0 if ok else 1
 
